@@ -59,11 +59,32 @@ def call_builtin(E, fv, args, kwargs, st, node):
         if h is None:
             raise EngineError("builtin %s not modelled (line %s)" % (name, getattr(node, "lineno", "?")))
         return h(E, args, kwargs, st, node)
-    if name in ("iteritems", "itervalues", "iterkeys"):
-        return call_method(E, args[0], {"iteritems": "items", "itervalues": "values", "iterkeys": "keys"}[name], [], {}, st, node)
+    if name.split(".")[-1] == "b" and getattr(obj, "__module__", "") == "six" and len(args) == 1 and isinstance(args[0], str) \
+            and E.externals.get("six.b") is None:
+        return [(st, E.lift(args[0].encode("latin-1")))]
+    if name.split(".")[-1] in ("iteritems", "itervalues", "iterkeys") and getattr(obj, "__module__", "") == "six":
+        return call_method(E, args[0], {"iteritems": "items", "itervalues": "values", "iterkeys": "keys"}[name.split(".")[-1]], [], {}, st, node)
     ext = E.externals.get(name) or E.externals.get(getattr(obj, "__qualname__", ""))
     if ext is not None:
         return ext(E, args, kwargs, st, node)
+    if isinstance(obj, type) and issubclass(obj, tuple) and hasattr(obj, "_fields"):
+        # a collections.namedtuple class (stdlib semantics): a record of its fields
+        from .values import ObjV
+        fields = list(obj._fields)
+        if len(args) > len(fields) or any(k not in fields for k in kwargs) or any(f in kwargs for f in fields[:len(args)]):
+            raise EngineError("bad arguments for namedtuple %s" % obj.__name__)
+        vals = dict(zip(fields, args))
+        vals.update(kwargs)
+        dflt = getattr(obj, "_field_defaults", {})
+        for f in fields:
+            if f not in vals:
+                if f not in dflt:
+                    raise EngineError("missing argument %s for namedtuple %s" % (f, obj.__name__))
+                vals[f] = E.lift(dflt[f])
+        if not hasattr(E, "namedtuples"):
+            E.namedtuples = {}
+        E.namedtuples[obj.__name__] = tuple(fields)
+        return [(st, ObjV(obj.__name__, vals))]
     raise EngineError("call of external %s not modelled (line %s)" % (name, getattr(node, "lineno", "?")))
 
 
